@@ -46,6 +46,9 @@ structure Orders where
   chDiffDifference : List Call
   chDiffEmpty : List Call
   chDiffTooLong : List Call
+  /-- the marker skip in `internalState.applyPts` / `channelState.applyPts` is `break`, not `continue` -/
+  applyPtsBreak : Bool
+  chApplyPtsBreak : Bool
   /-- other_updates of a common difference that carry a common pts/qts are dispatched directly
   (with the new messages) instead of being re-routed through `handleUpdates` (the D11 repair). -/
   ownDirect : Bool
@@ -58,10 +61,19 @@ abbrev SeqKey := Nat
 
 def Entry.seqKey (e : Entry) : Option SeqKey :=
   match e.kind with
-  | .msg | .other => some 0
+  | .msg | .other | .aff => some 0
   | .qts | .qother => some 1
-  | .chmsg | .chother => some (2 + e.chan)
+  | .chmsg | .chother | .chaff => some (2 + e.chan)
   | .plain => none
+
+def Entry.isMarker (e : Entry) : Bool := e.kind == .aff || e.kind == .chaff
+
+/-- Ids of count-0 affected results (they are not log entries) start here. -/
+def ephemeralBase : Nat := 900000
+
+/-- Which update tags are `affectedPts` markers in a scenario. -/
+def mkOf (log : List Entry) : Nat → Bool :=
+  fun i => decide (ephemeralBase ≤ i) || log.any fun e => e.id == i && e.isMarker
 
 inductive Event where
   | dispatch (ids : List Nat)
@@ -200,18 +212,24 @@ def applyCallsOf (O : Orders) (k : SeqKey) : List SCall :=
   else if k = 1 then seqCalls .storeQts .bad [] O.applyQts
   else seqCalls .storeChannelPts .bad [] O.chApplyPts
 
+/-- The apply callback of sequence `k` (`applyQts` has no marker handling: qts markers do not exist). -/
+def applyCfgOf (O : Orders) (mk : Nat → Bool) (k : SeqKey) : ACfg :=
+  { calls := applyCallsOf O k
+    breakAtMarker := if k = 0 then O.applyPtsBreak else if k = 1 then false else O.chApplyPtsBreak
+    isMarker := mk }
+
 /-- Run one per-sequence op on sequence `k` (Part A's `sstep`), emit its events, log it. -/
 def Mgr.seqOp (O : Orders) (m : Mgr) (k : SeqKey) (op : SOp) : Mgr :=
   match m.getBox k with
   | none => m
   | some b =>
-    let r := sstep (applyCallsOf O k) b op
+    let r := sstep (applyCfgOf O (mkOf m.w.log) k) b op
     ((m.setBox k r.1).emit (r.2.map (evOfSeq k))).logOp k op
 
 /-- `ptsSorter.Less`. -/
 def sortRank (e : Entry) : Nat :=
   match e.kind with
-  | .plain => 0 | .msg | .other => 1 | .qts | .qother => 2 | .chmsg | .chother => 3
+  | .plain => 0 | .msg | .other | .aff => 1 | .qts | .qother => 2 | .chmsg | .chother | .chaff => 3
 
 def sortLess (a b : Entry) : Bool :=
   if sortRank a < sortRank b then true
@@ -241,7 +259,7 @@ def Mgr.applyCombined (O : Orders) (m : Mgr) (container : List Entry) : Mgr :=
     | .msg | .other => m.seqOp O 0 (.push e)
     | .qts | .qother => m.seqOp O 1 (.push e)
     | .chmsg | .chother => m.pushChan e.chan (.upd e)
-    | .plain => m) m
+    | .plain | .aff | .chaff => m) m
   let plains := sorted.filter (·.kind == .plain)
   if plains.isEmpty then m else m.emit [.dispatch (plains.map (·.id))]
 
@@ -360,6 +378,8 @@ inductive Action where
   | push (ids : List Nat)
   | tooLong            -- updatesTooLong
   | chTooLong (c : Nat)
+  | affected (id : Nat)       -- Manager.HandleAffected for marker entry `id`
+  | affectedZero (c : Nat)    -- Manager.HandleAffected(c, current server pts, 0); c = 0: common
   | wait               -- the real gap timers fire
   | slice (n : Nat)
   | chSlice (n : Nat)
@@ -377,6 +397,23 @@ def Mgr.act (O : Orders) (m : Mgr) : Action → Mgr
       | some j => max acc (j + 1) | none => acc) m.w.emitted
     let m := { m with w := { m.w with emitted := idx } }
     if es.isEmpty then m else m.applyCombined O es
+  | .affected id =>
+    -- `internalState.handleAffected`: common markers go to the pts box, channel markers to the
+    -- (tracked) channel's worker, which hands them to its box
+    match m.w.log.find? (·.id == id), m.w.log.findIdx? (·.id == id) with
+    | some e, some j =>
+      let m := { m with w := { m.w with emitted := max m.w.emitted (j + 1) } }
+      if e.pos = 0 then m
+      else if e.kind == .aff then m.seqOp O 0 (.push e)
+      else if e.kind == .chaff then m.pushChan e.chan (.upd e)
+      else m
+    | _, _ => m
+  | .affectedZero c =>
+    let e : Entry := if c = 0 then { id := ephemeralBase + m.ops.length, kind := .aff, chan := 0, pos := m.w.serverPts, count := 0 }
+      else { id := ephemeralBase + m.ops.length, kind := .chaff, chan := c, pos := m.w.serverChan c, count := 0 }
+    if e.pos = 0 then m
+    else if c = 0 then m.seqOp O 0 (.push e)
+    else m.pushChan c (.upd e)
   | .tooLong => m.getDifference O fuel0
   | .chTooLong c => m.pushChan c (.tooLong (some (m.w.serverChan c)))
   | .wait =>
@@ -427,6 +464,6 @@ def projSeq (log : List Entry) (k : SeqKey) : List Event → List SEv
      | _ => []) ++ projSeq log k r
 
 /-- C02: every entry of the sequence above `lo` has been dispatched, unless too-long was reported. -/
-def complete (log : List Entry) (lo : Int) (evs : List SEv) : Bool := complete' log lo evs
+def complete (log : List Entry) (mk : Nat → Bool) (lo : Int) (evs : List SEv) : Bool := complete' log mk lo evs
 
 end TdModel.C02Core
